@@ -30,6 +30,10 @@ theorem img_map_range (f : Nat → Nat) {k i : Nat} (h1 : 1 ≤ i) (h2 : i ≤ k
   simp [img, List.getD, this]
   congr 1; omega
 
+theorem img_verts {n i : Nat} (h1 : 1 ≤ i) (h2 : i ≤ n) : img (verts n) i = i := by
+  have : verts n = (List.range n).map (fun p => id (p + 1)) := by simp [verts, rangeN]
+  rw [this, img_map_range id h1 h2]; rfl
+
 /-- two tables of the same length with the same images are equal -/
 theorem ext_img {l l' : List Nat} (hl : l.length = l'.length)
     (h : ∀ i, 1 ≤ i → i ≤ l.length → img l i = img l' i) : l = l' := by
